@@ -16,9 +16,9 @@ import (
 
 type PropSel struct {
 	Pkg   string `json:"pkg"`
-	Funcs string `json:"funcs"` // regexp on contract key
-	Kinds string `json:"kinds"` // regexp on obligation kind ("" = all)
-	Names string `json:"names"` // optional regexp that the obligation name must match (find)
+	Funcs string `json:"funcs"`     // regexp on contract key
+	Kinds string `json:"kinds"`     // regexp on obligation kind ("" = all)
+	Names string `json:"names"`     // optional regexp that the obligation name must match (find)
 	Not   string `json:"not_kinds"` // optional regexp on obligation kinds to leave to another property's check
 }
 
@@ -410,27 +410,50 @@ func runProperty(ld *Loader, verif, prop, tier, dir string, timeout, workers int
 	for _, f := range knownHit {
 		kf = append(kf, f.Obligation+": "+f.WhatFails)
 	}
+	absLoops, absCalls := []string{}, []string{}
+	seenAbs := map[string]bool{}
+	for _, fr := range results {
+		if fr.VC == nil {
+			continue
+		}
+		for _, a := range fr.VC.abstractedLoops {
+			if !seenAbs["l"+a] {
+				seenAbs["l"+a] = true
+				absLoops = append(absLoops, a)
+			}
+		}
+		for _, a := range fr.VC.abstractedCalls {
+			if !seenAbs["c"+a] {
+				seenAbs["c"+a] = true
+				absCalls = append(absCalls, a)
+			}
+		}
+	}
+	sort.Strings(absLoops)
+	sort.Strings(absCalls)
 	evid := map[string]interface{}{
 		"property_id": prop,
 		"tier":        tier,
 		"seed":        seed,
 		"level":       "proof",
 		"coverage": map[string]interface{}{
-			"obligations":              total,
-			"discharged":               discharged,
-			"checker_cmd":              fmt.Sprintf("/verif/bin/govc -property %s -tier %s (z3-new, cvc5, z3 raced per obligation, timeout %ds)", prop, tier, timeout),
-			"trusted_base":             trusted,
-			"functions":                fns,
-			"functions_under_contract": len(fns),
-			"discharged_by_backend":    solverCounts,
-			"solver_seconds":           solverTime,
-			"vacuity":                  map[string]int{"cover_checks": covers, "cover_ok": coversOK},
-			"known_findings":           kf,
-			"bounded":                  boundedEv,
-			"undecided_clauses":        def.Undecided,
-			"contract_sources":         srcs,
-			"samples":                  samples,
-			"explanation":              "every obligation is generated from /repo's current source by symbolic execution of the real function bodies against their contracts and discharged by an SMT solver; one obligation per postcondition conjunct, frame, precondition of a callee, loop invariant, bounds/nil/div/shift/panic site",
+			"obligations":                      total,
+			"discharged":                       discharged,
+			"checker_cmd":                      fmt.Sprintf("/verif/bin/govc -property %s -tier %s (z3-new, cvc5, z3 raced per obligation, timeout %ds)", prop, tier, timeout),
+			"trusted_base":                     trusted,
+			"functions":                        fns,
+			"functions_under_contract":         len(fns),
+			"discharged_by_backend":            solverCounts,
+			"solver_seconds":                   solverTime,
+			"vacuity":                          map[string]int{"cover_checks": covers, "cover_ok": coversOK},
+			"known_findings":                   kf,
+			"bounded":                          boundedEv,
+			"undecided_clauses":                def.Undecided,
+			"loops_cut_without_invariant":      absLoops,
+			"calls_abstracted_by_effect_havoc": absCalls,
+			"contract_sources":                 srcs,
+			"samples":                          samples,
+			"explanation":                      "every obligation is generated from /repo's current source by symbolic execution of the real function bodies against their contracts and discharged by an SMT solver; one obligation per postcondition conjunct, frame, precondition of a callee, loop invariant, bounds/nil/div/shift/panic site",
 		},
 		"assumptions": trusted,
 		"wall_s":      time.Since(start).Seconds(),
